@@ -484,6 +484,14 @@ def _is_lower(node):
 def run(m, tier):
     blocks = tables.engine_instances(m, "BlockBase")
     results = [r1_scope_pairing(m, blocks), r2_factory_resets(m), r3_registry_ownership(m), r4_memo(m), r5_parse_cache(m), r6_boundary_rollback(m), r7_state_writers(m), r8_table_keys(m)]
+    from rules import C16, order_rules
+    r9 = C16.r3_lookup(m)
+    r9.rule = "C09.R9"
+    r9.title = "a scoping unit entered inside another scope always gets a table of its own; only outside any scope is an existing top-level table re-entered (shared with C16.R3)"
+    for f_ in r9.findings:
+        f_.rule = "C09.R9"
+    results.append(r9)
+    results.append(order_rules.remove_priority_rule(m, "C09.R10"))
     expl = ("Decides the structural clauses of C09: (R1) scope typestate -- in the generic block engine, specialised for each "
             "of its call sites, and in every other function that enters a symbol-table scope, the scope is left on every normal "
             "and exceptional exit (exception edges from explicit-raise summaries over the resolved call graph, for the exception "
